@@ -1336,7 +1336,7 @@ def gen_cases(ctx):
             for n in ((0, 1, 3, 7) if tier == "quick" else (0, 1, 2, 3, 5, 7, 9)):
                 yield mk_case([s1, s2], n, ks=[0, 1, 2] if tier == "quick" else list(range(n + 2)))
             yield mk_case([s1, s2], None, K=4, ks=[0, 2])
-    nrand = 4000 if tier == "quick" else 120000
+    nrand = 4000 if tier == "quick" else 80000
     for _ in range(nrand):
         yield random_case(rng, tier)
 
@@ -1416,7 +1416,7 @@ RULE = ("quick and thorough: fixed cases (documented examples; negative Slice ov
         "elements over finite and infinite inputs, and seeded random pipelines (0..4 elements: callables, Variable, "
         "Print, Context, UpdateContext, MakeFilename, Filter, Slice, Count, RunIf (also with Count inside, also given a "
         "Selector and a Sequence), Split with sequence, fill/compute (tuple or explicit FillComputeSeq, FillInto(Count) "
-        "before the fill/compute element) and Source branches, a nested Split (bufsize None/1/2/1000) or a Cache inside a sequence-type branch, bufsize 1..5, 1000, None; 4000 quick / 120000 thorough; 30% of them run as Source(first, *elements)() with a callable or a one-pass iterator object as first element), each with a long run and runs for consumer stop points "
+        "before the fill/compute element) and Source branches, a nested Split (bufsize None/1/2/1000) or a Cache inside a sequence-type branch, bufsize 1..5, 1000, None; 4000 quick / 80000 thorough; 30% of them run as Source(first, *elements)() with a callable or a one-pass iterator object as first element), each with a long run and runs for consumer stop points "
         "(quick: 3 per case, thorough: every k = 0..n+1). Non-trivial: at least one element and one result.")
 TRUSTED = [
     "Lean 4.33.0 kernel; axioms limited to propext, Classical.choice, Quot.sound (audited by #print axioms on every run)",
